@@ -53,6 +53,8 @@ def add_ocb_natives(reg):
     reg.add(Contract(R + 'create_string_buffer', params={'init_or_size': 'nat', 'size': 'none'}, result='obj:native.CBuf',
                      ensures={'zeroed': 'result.g_data == rep(b"\\x00", init_or_size)', 'len': 'len(result.g_data) == init_or_size'}, modifies=[],
                      assumed='ctypes/cffi buffer allocation (unchecked)'))
+    reg.add(Contract('native.CBuf.__len__', params={'self': 'obj:native.CBuf'}, returns='len(self.g_data)', modifies=[], options={'exact': True},
+                     assumed='ctypes/cffi buffer size (unchecked)'))
     reg.add(Contract(R + 'get_raw_buffer', params={'buf': 'obj:native.CBuf'}, returns='buf.g_data', modifies=[], options={'exact': True},
                      assumed='ctypes/cffi buffer read-out (unchecked)'))
     reg.add(Contract(R + 'c_uint8_ptr', params={'data': 'buffer'}, returns='data', modifies=[], options={'exact': True},
@@ -80,7 +82,7 @@ def add_ocb_natives(reg):
     return reg
 
 
-def registry(nxt='all', data='bytes'):
+def registry0(nxt='all', data='bytes', direction='enc'):
     reg = add_ocb_natives(registry_with_natives())
     reg.add(ClassContract(C, fields={'block_size': 'int', 'nonce': 'bytes', '_mac_len': 'int', '_mac_tag': 'bytes|none', '_cache_A': 'bytes', '_cache_P': 'bytes',
                                      '_next': nxt_t(NEXTS[nxt]), '_state': 'obj:native.OCBPtr'}, valid=list(VALID)))
@@ -106,19 +108,110 @@ def registry(nxt='all', data='bytes'):
                      returns='self'))
     # _transcrypt_aligned / _transcrypt (C09): native message + cache == everything passed so far; the output is the C function's output for
     # the whole blocks that became available (with in_data None: for the cached rest, the final partial block)
-    for kind, dec in (('enc', False), ('dec', True)):
+    for kind, dec in ((direction, direction == 'dec'),):
         fn = reg.overrides['native.ocblib.OCB_%scrypt' % ('de' if dec else 'en')]
-        suffix = '#' + kind
         OUT = 'spec.aead2.ocb_crypt(%sg_id, len(old(%sg_M)), %%s, %s)' % (ST, ST, dec)
         reg.add(Contract(C + '._transcrypt_aligned', params={'in_data': 'bytes', 'in_data_len': 'nat', 'trans_func': ('const', fn), 'trans_desc': 'str'},
                          requires=['in_data_len <= len(in_data)'], raises={},
                          ensures={'out': 'result == %s' % (OUT % 'in_data[:in_data_len]'),
                                   'msg': '%sg_M == old(%sg_M) + %s' % (ST, ST, 'result' if dec else 'in_data[:in_data_len]')},
                          modifies={'self._state.g_st.g_M': 'bytes'}, result='bytes', options={'assume_valid': False}))
-        if kind == 'dec':
-            continue
     return reg
 
 
+def registry(nxt='all', data='bytes', direction='enc'):
+    """direction: which C function the helpers _transcrypt_aligned/_transcrypt are instantiated with ('enc' | 'dec')"""
+    reg = registry0(nxt, data, direction)
+    dec = direction == 'dec'
+    fn = reg.overrides['native.ocblib.OCB_%scrypt' % ('de' if dec else 'en')]
+    OUT = 'spec.aead2.ocb_crypt(%sg_id, len(old(%sg_M)), %%s, %s)' % (ST, ST, dec)
+    OUT16 = 'spec.aead2.ocb_crypt(%sg_id, len(old(%sg_M)) + 16, %%s, %s)' % (ST, ST, dec)
+    ALLIN = '(old(self._cache_P) + bytes(in_data))'
+    K = 'len(%sg_M) - len(old(%sg_M))' % (ST, ST)          # bytes handed to the C code by this call
+    # the output: one C call on the whole blocks of pending + data; when a cached partial block is completed, that block is a C call of its own
+    # (how the pieces compose over positions is the native part: position-indexed, ASSUMED/bounded)
+    TWO = 'len(old(self._cache_P)) > 0 and len(old(self._cache_P)) + len(in_data) >= 16'
+    PIECES = '((%s + %s) if (%s) else %s)' % (OUT % ('%s[:16]' % ALLIN), OUT16 % ('%s[16:%s]' % (ALLIN, K)), TWO, OUT % ('%s[:%s]' % (ALLIN, K)))
+    # _transcrypt (C09): with data: pending + data is cut at the last block boundary, the whole blocks go to C (output returned), the rest is
+    # cached; with None (finaliser): the cached rest is processed as the final partial block and the cache is emptied
+    TR_PRE = ['len(self._cache_P) < 16', 'len(%sg_M) %% 16 == 0' % ST]
+    reg.add(Contract(C + '._transcrypt', params={'in_data': data + '|none', 'trans_func': ('const', fn), 'trans_desc': 'str'}, requires=TR_PRE, raises={},
+                     ensures={'final': 'in_data is None ==> (result == %s and self._cache_P == b"" and %sg_M == old(%sg_M) + %s)'
+                                       % (OUT % 'old(self._cache_P)', ST, ST, 'result' if dec else 'old(self._cache_P)'),
+                              'cut': 'in_data is not None ==> (%s == (len(old(self._cache_P)) + len(in_data)) // 16 * 16 and self._cache_P == %s[%s:])' % (K, ALLIN, K),
+                              'out': 'in_data is not None ==> result == %s' % PIECES,
+                              'msg': 'in_data is not None ==> %sg_M == old(%sg_M) + %s' % (ST, ST, 'result' if dec else '%s[:%s]' % (ALLIN, K)),
+                              'cache': 'len(self._cache_P) < 16'},
+                     modifies={'self._cache_P': 'bytes', 'self._state.g_st.g_M': 'bytes'}, result='bytes', options={'assume_valid': False}))
+    # encrypt / decrypt (C10): argument None = finaliser
+    for kind, arg, d in (('encrypt', 'plaintext', False), ('decrypt', 'ciphertext', True)):
+        if d != dec:
+            continue
+        fin = 'digest' if kind == 'encrypt' else 'verify'
+        reg.add(Contract(C + '.' + kind, params={arg: data + '|none'},
+                         raises={'TypeError': ('iff', '"%s" not in self._next' % kind)}, unchanged_on_raise=True,
+                         ensures=dict(INV, next='self._next == (["%s"] if %s is None else ["%s"])' % (fin, arg, kind),
+                                      final='%s is None ==> (result == %s and self._cache_P == b"")' % (arg, OUT % 'old(self._cache_P)'),
+                                      # C09: native message + cache == everything passed so far (decryption: what is pending is ciphertext,
+                                      # what the native state has absorbed is the plaintext returned so far)
+                                      stream=('%s is not None ==> %s == %s + %s' % (arg, M_ALL, M_ALL.replace('self.', 'old(self).'), arg)) if not d else
+                                             ('%s is not None ==> (%sg_M == old(%sg_M) + result and len(result) == %s and '
+                                              'self._cache_P == (old(self._cache_P) + bytes(%s))[%s:])' % (arg, ST, ST, K, arg, K))),
+                         modifies={'self._next': nxt_t([kind]), 'self._cache_P': 'bytes', 'self._state.g_st.g_M': 'bytes'}, result='bytes'))
+    # _compute_mac_tag / digest / verify (C01): flush the cached AAD, 16-byte tag from C, truncated to mac_len; cached afterwards
+    TAG = 'spec.aead2.ocb_tag(%sg_id, %s, %sg_M)[:self._mac_len]' % (ST, A_ALL, ST)
+    TAG_OLD = TAG.replace('self.', 'old(self).')
+    reg.add(Contract(C + '._compute_mac_tag', params={}, requires=['len(self._cache_A) < 16', '8 <= self._mac_len and self._mac_len <= 16'], raises={},
+                     ensures={'tag': 'self._mac_tag == (old(self._mac_tag) if old(self._mac_tag) is not None else %s)' % TAG_OLD,
+                              'len': 'len(self._mac_tag) == (len(old(self._mac_tag)) if old(self._mac_tag) is not None else self._mac_len)',
+                              'flushed': 'old(self._mac_tag) is None ==> (self._cache_A == b"" and %sg_A == old(%sg_A) + old(self._cache_A))' % (ST, ST)},
+                     modifies={'self._mac_tag': 'bytes', 'self._cache_A': 'bytes', 'self._state.g_st.g_A': 'bytes'}, options={'assume_valid': False}))
+    DIG_MOD = {'self._mac_tag': 'bytes', 'self._cache_A': 'bytes', 'self._state.g_st.g_A': 'bytes'}
+    reg.add(Contract(C + '.digest', params={}, raises={'TypeError': ('iff', '"digest" not in self._next')}, unchanged_on_raise=True,
+                     ensures=dict(INV, next='self._next == ["digest"]', result='result == self._mac_tag',
+                                  tag='self._mac_tag == (old(self._mac_tag) if old(self._mac_tag) is not None else %s)' % TAG_OLD),
+                     modifies=dict(DIG_MOD, **{'self._next': nxt_t(['digest'])}), result='bytes'))
+    reg.add(Contract(C + '.verify', params={'received_mac_tag': data},
+                     raises={'TypeError': ('iff', '"verify" not in self._next'),
+                             'ValueError': ('iff', '"verify" in self._next and received_mac_tag != (self._mac_tag if self._mac_tag is not None else %s)' % TAG)},
+                     unchanged_on_raise=['TypeError'],
+                     ensures=dict(INV, next='self._next == ["verify"]', accepted='received_mac_tag == self._mac_tag',
+                                  tag='self._mac_tag == (old(self._mac_tag) if old(self._mac_tag) is not None else %s)' % TAG_OLD),
+                     modifies=dict(DIG_MOD, **{'self._next': nxt_t(['verify'])})))
+    return reg
+
+
+def _unit(prop, uid, targets, **kw):
+    from vf.pyunit import pyvc_unit
+    return pyvc_unit(prop, uid, lambda: registry(**kw), targets)
+
+
+PERMIT = {'update': ('all',), 'encrypt': ('all', 'enc'), 'decrypt': ('all', 'dec'), 'digest': ('all', 'dig'), 'verify': ('all', 'ver')}
+
+
 def units(prop, tier):
-    return []
+    from spec import fsm        # the per-value enumeration of `_next` is exactly the reachable state set of the documented automaton
+    assert sorted(tuple(sorted(v)) for v in NEXTS.values()) == sorted(fsm.reach('OCB')), 'spec.fsm OCB table and contract enumeration differ'
+    us = []
+    buf = 'bytes' if tier == 'quick' else 'buffer'
+    if prop == 'C01':
+        us.append(_unit(prop, 'ocb.tag', [C + '._compute_mac_tag']))
+        for nxt in ('all', 'ver'):
+            us.append(_unit(prop, 'ocb.verify.' + nxt, [C + '.verify'], nxt=nxt, data=buf))
+    elif prop == 'C09':
+        us.append(_unit(prop, 'ocb.update', [C + '._update', C + '.update'], data=buf))
+        for d in ('enc', 'dec'):
+            us.append(_unit(prop, 'ocb.transcrypt.' + d, [C + '._transcrypt_aligned', C + '._transcrypt'], direction=d, data=buf))
+    elif prop == 'C10':
+        for nxt in NEXTS:
+            for d, m in (('enc', 'encrypt'), ('dec', 'decrypt')):
+                us.append(_unit(prop, 'ocb.fsm.%s.%s' % (nxt, m), [C + '.' + m], nxt=nxt, direction=d))
+            us.append(_unit(prop, 'ocb.fsm.%s.rest' % nxt, [C + '.' + m for m in ('update', 'digest', 'verify')], nxt=nxt))
+    return us
+
+
+# NOT PROVED: OcbMode.__init__ (C02 glue: nonce formatting, Ktop, Stretch, Offset_0 of RFC 7253 4.2): outside the PYVC subset as it stands
+#   (struct.pack('15sB', ...), a right shift by the symbolic amount 64 - bottom of a 192-bit integer followed by long_to_bytes(., 24)[8:], and the
+#   ctypes plumbing VoidPointer/SmartPointer/OCB_start_operation).  Covered only by the bounded harness (bounded/modes.py OCB, all nonce lengths 1..15
+#   and tag lengths 8..16 against spec.ref_ocb).
+# NOT PROVED: encrypt_and_digest / decrypt_and_verify of OcbMode (compositions of the proved methods).
